@@ -31,6 +31,7 @@ import (
 	"os"
 	"os/exec"
 	"runtime"
+	"runtime/debug"
 	"sort"
 	"strconv"
 	"strings"
@@ -458,6 +459,21 @@ func (w *world) closeAll() {
 			s.s.Close()
 		}()
 	}
+	// A failed protectedmemory creation leaves an object whose finalizer calls Close() on it at some
+	// later garbage collection (see the report: not modelled).  Pages such an orphan still owns in the
+	// shadow table (its cleanup was made to fail) are dropped here, so that the late Close cannot
+	// succeed and disturb the in-use counter of a later case; the collector is off while a world runs.
+	for _, sh := range w.sh {
+		sh.mu.Lock()
+		for k, p := range sh.pages {
+			p.mapped, p.locked = false, false
+			delete(sh.pages, k)
+		}
+		sh.mu.Unlock()
+	}
+	if !w.real {
+		debug.SetGCPercent(100)
+	}
 }
 
 func newWorld(kind string, rng *prng.R) *world {
@@ -471,6 +487,9 @@ func newWorld(kind string, rng *prng.R) *world {
 		w.sh["mg"] = newShadow(true)
 		w.fac["pm"] = pm.VerifNewFactory(w.sh["pm"].prims())
 		w.fac["mg"] = mg.VerifNewFactory(w.sh["mg"].prims())
+	}
+	if !w.real {
+		debug.SetGCPercent(-1)
 	}
 	w.base = securememory.InUseCounter.Count()
 	fmt.Fprintf(out, "world %s\n", kind)
@@ -557,15 +576,17 @@ func parseFlt(f []string) ([]string, string) {
 
 // classify what a callback sees, against what the secret was created with
 func (s *secT) classify(b []byte) string {
-	if allZero(b) {
-		return "zero"
-	}
 	if s.ref == nil {
+		// a random secret of the real world: whatever the first callback sees is the reference
+		// (a short random secret may legitimately consist of zero bytes)
 		s.ref = append([]byte(nil), b...)
 		return s.kind
 	}
 	if bytes.Equal(b, s.ref) {
 		return s.kind
+	}
+	if allZero(b) {
+		return "zero"
 	}
 	return "other"
 }
@@ -784,6 +805,10 @@ func (w *world) exec(line string) {
 		}
 		if w.real && s.addr != 0 {
 			o.after = smapsAt(s.addr)
+			if o.res == "ok" {
+				// the range is free now and may legitimately be handed out again: stop looking at it
+				s.addr = 0
+			}
 		}
 		finish(s)
 	case "isclosed":
